@@ -33,6 +33,8 @@ pub struct Profile {
     pub w_drop_consumer: u32,
     pub p_auditor: (usize, usize),
     pub p_audit_every: (usize, usize),
+    /// share of runs that start with a vector of 12–80 items (beyond the inline / single-chunk forms of imbl)
+    pub p_big: (usize, usize),
     /// dynamic parameters allowed
     pub dynamic: bool,
     pub max_consumers: usize,
@@ -55,6 +57,7 @@ pub fn profile(prop: &str) -> Profile {
         w_drop_consumer: 2,
         p_auditor: (3, 4),
         p_audit_every: (1, 2),
+        p_big: (1, 12),
         dynamic: true,
         max_consumers: 4,
     };
@@ -65,7 +68,7 @@ pub fn profile(prop: &str) -> Profile {
         "C08" => Profile { prop: "C08", w_drop_vec: 8, caps: &[1, 2, 3, 4, 8, 16], p_auditor: (1, 2), ..base },
         "C09" => Profile { prop: "C09", chain: ChainSel::Hts, chain_len: (1, 1), w_lim: 14, ..base },
         "C10" => Profile { prop: "C10", chain: ChainSel::Filter, chain_len: (1, 1), caps: &[1, 2, 4, 16, 64], ..base },
-        "C11" => Profile { prop: "C11", chain: ChainSel::Sort, chain_len: (1, 1), caps: &[1, 2, 4, 16, 64], ..base },
+        "C11" => Profile { prop: "C11", chain: ChainSel::Sort, chain_len: (1, 1), caps: &[1, 2, 4, 16, 64], p_big: (1, 5), ..base },
         "C12" => Profile { prop: "C12", chain: ChainSel::Any, chain_len: (2, 3), w_lim: 10, caps: &[2, 4, 16, 64], ..base },
         "C13" => Profile {
             prop: "C13",
@@ -91,7 +94,7 @@ pub fn profile(prop: &str) -> Profile {
         },
         "C15" => Profile { prop: "C15", chain: ChainSel::HtsFixedHeadTail, chain_len: (1, 2), dynamic: false, caps: &[1, 4, 16, 64], ..base },
         "C17" => Profile { prop: "C17", w_trav: 14, w_bad: 10, w_tx: 12, w_sub: 3, ..base },
-        "C20" => Profile { prop: "C20", chain: ChainSel::Any, chain_len: (0, 3), w_lim: 6, w_drop_consumer: 6, w_drop_vec: 4, ..base },
+        "C20" => Profile { prop: "C20", chain: ChainSel::Any, chain_len: (0, 3), w_lim: 6, w_drop_consumer: 6, w_drop_vec: 4, p_big: (1, 3), ..base },
         _ => base,
     }
 }
@@ -273,7 +276,7 @@ pub fn gen_case(prop: &str, rng: &mut Rng) -> Case {
     let mut sh = Shadow { len: 0, tx: None, consumers: 0, sources: 0, dropped: false, next_uid: 1, seen: Vec::new() };
     // mostly small vectors; one run in twelve starts beyond imbl's inline / single-chunk
     // representations (different code paths for clone, ptr_eq, split, append)
-    let big = rng.chance(1, 12) && !no_big();
+    let big = rng.chance(p.p_big.0, p.p_big.1) && !no_big();
     let initial: Vec<V> = if big {
         (0..12 + rng.below(70)).map(|_| value(&mut sh, rng)).collect()
     } else if rng.chance(1, 2) {
